@@ -608,10 +608,8 @@ let exec (s : t) (verbose : bool) (f : string array) (obs : string option) : str
   | "backup" | "backupget" ->
     let ((d, k), evs) = db_backup (get_db s) s.disk in
     (* Backup makes the destination a copy of the data directory (stale data and hint files of an
-       earlier backup are removed); a merge directory next to the destination is not touched *)
-    let k = match Hashtbl.find_opt s.disks f.(2) with
-      | None -> k
-      | Some old -> { k with k_merge = old.k_merge } in
+       earlier backup are removed) and removes a merge directory left beside the destination *)
+    let k = { k with k_merge = None } in
     s.db <- Some d; Hashtbl.replace s.disks f.(2) k;
     if f.(1) = "backupget" then begin
       (* the keys the probing Gets asked for (observed); they read after the backup has let go of the lock *)
@@ -643,6 +641,7 @@ let exec (s : t) (verbose : bool) (f : string array) (obs : string option) : str
      | Some { m_marker = Some _; m_hint = None; _ } -> "nohint"
      | _ -> "none")
   | "straylock" -> ""
+  | "linkdir" -> ""
   | "putfail" ->
     (* a Put whose write the operating system refused: it reports the error and nothing changed (the harness
        injects the fault only when no rotation precedes the write; otherwise the operation is skipped) *)
